@@ -27,7 +27,7 @@ def report(ctx, violations, kind, what, script_lines, impl_lines, model_lines, e
     if len(violations) >= maxn:
         return
     body = "property %s — %s\n%s\n\n--- script (feed to the harness / driver) ---\n=== replay %s\n%s\n\n--- implementation ---\n%s\n\n--- model ---\n%s\n%s" % (
-        ctx.pid, kind, what, "values" if ctx.pid == "C20" else "codec", "\n".join(script_lines), "\n".join(impl_lines), "\n".join(model_lines), extra)
+        ctx.pid, kind, what, {"C20": "values", "C04": "net", "C09": "net"}.get(ctx.pid, "codec"), "\n".join(script_lines), "\n".join(impl_lines), "\n".join(model_lines), extra)
     p = vlib.write_replay(ctx.pid, "%s_%d" % (kind, len(violations)), body)
     violations.append({"replay": p, "what": "%s: %s" % (kind, what), "nofail": nofail, "signature": signature or kind, "kind": kind})
 
